@@ -36,7 +36,10 @@ func init() {
 		ID: "C01", Level: "exploration",
 		Rule: "case = (forgery operator applied to a genuinely signed endorsement, trust-root set, verification time); every case is run through every entry point that takes an endorsement; " +
 			"the independent oracle authref (PSS/SHA-256 over the carried payload under the embedded certificate's key; certificate byte-equal to or crypto-signed by a supplied root; notBefore<=now<=notAfter) decides whether acceptance is allowed. " +
-			"non-trivial = the oracle had something to decide: distinct (operator class, roots, time class, entry point, outcome class) cells where outcome is accept-authentic, reject-nonauthentic or reject-authentic",
+			"non-trivial = the oracle had something to decide: distinct (operator class, roots, time class, entry point, outcome class) cells where outcome is accept-authentic, reject-nonauthentic or reject-authentic. " +
+			"Two further families follow the sequences (audit.go), judged by the same rule: 'kept' = sequences in which the caller keeps ONE options value per entry point, one decode receiver, one buffer, one attestation and long-lived validator closures and changes one thing at a time between calls; " +
+			"'matrix' = every entry point under drawn option combinations (SNP sub-options, expected digest, base policy x overwrite, VMSA/RAM selectors, testonly_force_gcs, endorsement from options / certificate table / bucket / bucket after an unparseable table entry, failing bucket, cancelled contexts, " +
+			"verification times in non-UTC zones, CLI roots from file / download / failing or garbage download / missing or empty file, attestation containers raw/hex/base64/proto, parent-command flags); cells there are (family, entry point, option values, operator|roots|time, outcome)",
 		Assumptions: []string{"oracle is one-directional (accept => authentic) and is the weakest reading of C01: any PSS salt length, root expiry not required, no CA/key-usage constraints",
 			"zero verification time is excluded (crypto/x509 substitutes the wall clock)", "TdxValidate is always given the endorsement in its options (nil would start real HTTPS retries)",
 			"RSA keys are generated per run (Go's RSA keygen is not seedable); verdicts do not depend on key values"},
@@ -261,6 +264,17 @@ func (w *world) forge(s spec, bit uint) []byte {
 		e.SerializedUefiGolden = e.SerializedUefiGolden[:len(e.SerializedUefiGolden)-1-s.param%16]
 	case "payload-reencode": // same message, other bytes; signature left as is (payload malleability)
 		e.SerializedUefiGolden = reencode(e.SerializedUefiGolden, s.param)
+	// operators below are only used by the audit families (audit.go); the case lists above never name them
+	case "empty-endorsement": // zero-length wire bytes: parses to an endorsement with nothing in it
+		return []byte{}
+	case "payload-empty":
+		e.SerializedUefiGolden = nil
+	case "payload-empty-resigned": // the genuine signer's signature over the empty payload (no certificate inside)
+		e = signWith([]byte{}, p.Signer.Key)
+	case "sig-one-byte":
+		e.Signature = e.Signature[:1]
+	case "sig-leading-zero": // same integer, one byte longer
+		e.Signature = append([]byte{0}, e.Signature...)
 	default:
 		panic("unknown operator " + s.op)
 	}
@@ -656,6 +670,9 @@ func run(c *core.Ctx) {
 		}
 		c.End(i)
 	}
+	// audit families (audit.go): caller-kept values reused across calls, and option / source / environment
+	// combinations; their case numbers follow the sequences so that every earlier case keeps its number.
+	w.runAudit(c, base+len(seqs))
 	for _, en := range ents {
 		c.Count("genuine-accepts/"+en.name, genuineAccept[en.name])
 		c.Count("nonauthentic-rejects/"+en.name, forgedReject[en.name])
